@@ -183,7 +183,16 @@ fn analyse(cfg: &Cfg) -> String {
     defs.sort();
     let decls = set_str(taint.declarations().map(|u| u.name()));
 
-    // sinks, recomputed as in run_side_effect_analysis (public API only)
+    // sinks, recomputed as in run_side_effect_analysis (public API only). TRANSCRIPTION of
+    // /repo/program_analysis/src/side_effect_analysis.rs (commit 81d7439), statement for statement:
+    //   `exported`        <- lines 254-278 (signal_decls filtered to Input | Output: exported_signals)
+    //   `exported_sinks`  <- lines 282-285
+    //   `sinks` (C)       <- lines 289-299 (constraint partners; the source itself if it has any)
+    //   `sinks.extend(exported)` <- line 302
+    //   first block loop  <- lines 307-322 (repair 7b80e23: tainted names used by a constraint statement)
+    //   second block loop <- lines 327-339 (Declaration | Return | Assert | IfThenElse: variables_read)
+    // lib/props/C09.py pins the text of lines 254-341 (SINK_CODE_SHA256), checks that this set explains the
+    // REAL reports (sink_consistency) and runs the sink probes of lib/c09probe.py against the real pass.
     let exported: HashSet<VariableName> = cfg
         .declarations()
         .iter()
